@@ -272,3 +272,15 @@ pub fn class_name(k: u32) -> &'static str {
         _ => "K?",
     }
 }
+
+/// a two-character piece  alpha (':' | '|')  delimited like a path segment, anywhere in the text
+/// (Model/KnownC01.v has_drive_segment; used by Known_C07 class 1)
+pub fn has_drive_segment(t: &[char]) -> bool {
+    (0..t.len()).any(|i| {
+        t[i].is_ascii_alphabetic()
+            && i + 1 < t.len()
+            && (t[i + 1] == ':' || t[i + 1] == '|')
+            && (i == 0 || is_path_end(t[i - 1]))
+            && (i + 2 == t.len() || is_path_end(t[i + 2]))
+    })
+}
